@@ -256,11 +256,38 @@ def rule_r3(prog, res) -> None:
             data = [(f, s) for f, s, kk, tg_, sen in sends if kk == k and tg_ == tag and not sen and f.module is fi.module]
             sent = [(f, s) for f, s, kk, tg_, sen in sends if kk == k and tg_ == tag and sen and f.module is fi.module]
             if not stops_at_sentinel:
-                # counting loop (dispatcher): checked by R5
-                res.ok("C06.R3", res.site(fi, norm_stmt(c)[:50]), "wildcard receive in a counting loop (termination by counter, see R5)")
+                if fi.name == "_mpi_root_task":
+                    res.ok("C06.R3", res.site(fi, norm_stmt(c)[:50]), "wildcard receive in the dispatcher's counting loop (termination by counter, see R5)")
+                    continue
+                _counting_receiver(prog, res, fi, c, k, tag, sends)
                 continue
             if not data or not sent:
                 raise AnalysisError(f"C06.R3: cannot find data/sentinel senders for the wildcard receive in {fi.short}")
+            # a loop that stops at the FIRST sentinel is sound only for a single sending rank: the function that
+            # sends the data must run under an equality guard on the rank, not under a membership test
+            multi = False
+            for f, s in data:
+                for g in _mpi_funcs(prog):
+                    gcfg = None
+                    for cc in calls_in(g):
+                        if f in prog.resolve_call(g, cc).funcs():
+                            gcfg = gcfg or cfg_of(g.node)
+                            for nd in gcfg.node_containing(cc):
+                                gs = [(t, pol) for t, pol in gcfg.guards(nd) if _rank_dependent(prog, g, t)]
+                                single = any(pol and isinstance(t, ast.Compare) and len(t.ops) == 1 and isinstance(t.ops[0], ast.Eq) for t, pol in gs)
+                                if not single:
+                                    multi = True
+            if multi:
+                dfs = sorted({f.short for f, _ in data})
+                res.violation(
+                    "C06.R3",
+                    fi,
+                    c,
+                    f"the receive loop stops at the FIRST EndOfQueue although data on tag {tag} are sent by several ranks ({dfs}): the first sender's sentinel ends the loop while "
+                    "other ranks' patch messages are still pending; their records are never written",
+                    key_extra=f"recv-any-source-tag{tag}-single-sentinel",
+                )
+                continue
             # sound iff every function that sends data also sends the sentinel after its data loop
             ok = True
             for f, s in data:
@@ -287,6 +314,74 @@ def rule_r3(prog, res) -> None:
                 )
     if n < 2:
         raise AnalysisError(f"C06.R3: only {n} wildcard receives found, minimum 2")
+
+
+def _counting_receiver(prog, res, fi, c, k, tag, sends) -> None:
+    """wildcard receive in a loop that counts one sentinel per sender"""
+    fn = fi.node
+    cfg = cfg_of(fn)
+    loops = [x for x in walk_no_nested(fn) if isinstance(x, ast.While) and any(y is c for y in ast.walk(x))]
+    if not loops:
+        raise AnalysisError(f"C06.R3: wildcard receive in {fi.short} is not inside a while loop")
+    lp = loops[0]
+    names = [n.id for n in ast.walk(lp.test) if isinstance(n, ast.Name)]
+    decs = [x for x in ast.walk(lp) if isinstance(x, ast.AugAssign) and isinstance(x.op, ast.Sub) and isinstance(x.target, ast.Name) and x.target.id in names and isinstance(x.value, ast.Constant) and x.value.value == 1]
+    if len(decs) != 1:
+        res.violation("C06.R3", fi, c, "the receive loop neither stops at a sentinel nor counts one sentinel per sender", key_extra="recv-loop-no-termination-rule")
+        return
+    counter = decs[0].target.id
+    # the decrement happens exactly when the received payload is the sentinel
+    ok_branch = False
+    for x in ast.walk(lp):
+        if isinstance(x, ast.If) and "EndOfQueue" in unparse(x.test):
+            in_body = any(y is decs[0] for s in x.body for y in ast.walk(s))
+            in_else = any(y is decs[0] for s in x.orelse for y in ast.walk(s))
+            is_pos = isinstance(x.test, ast.Compare) and isinstance(x.test.ops[0], (ast.Is, ast.Eq))
+            proc_other = [s for s in (x.orelse if in_body else x.body) if any(isinstance(y, ast.Call) and isinstance(y.func, ast.Attribute) and y.func.attr == "process_patches" for y in ast.walk(s))]
+            if ((in_body and is_pos) or (in_else and not is_pos)) and proc_other:
+                ok_branch = True
+    # initial value = number of sending ranks
+    init = [v for v in all_def_values(fn, counter) if v is not None and not isinstance(v, ast.BinOp)]
+    src_param = init[0].id if init and isinstance(init[0], ast.Name) and init[0].id in fi.param_names() else None
+    ok_init = False
+    callers_checked = 0
+    if src_param:
+        for g in _mpi_funcs(prog):
+            for cc in calls_in(g):
+                if fi in prog.resolve_call(g, cc).funcs():
+                    callers_checked += 1
+                    a = kwarg(cc, src_param)
+                    if a is not None and isinstance(a, ast.Call) and isinstance(a.func, ast.Name) and a.func.id == "len" and "active_ranks" in unparse(a):
+                        ok_init = True
+    # every data sender sends exactly one sentinel after its data, on every path
+    data = [(f, s) for f, s, kk, tg_, sen in sends if kk == k and tg_ == tag and not sen and f.module is fi.module]
+    sent = [(f, s) for f, s, kk, tg_, sen in sends if kk == k and tg_ == tag and sen and f.module is fi.module]
+    ok_send = bool(data)
+    for f, s in data:
+        own = [ss for ff, ss in sent if ff is f]
+        if len(own) != 1:
+            ok_send = False
+            continue
+        cf = cfg_of(f.node)
+        dn, sn = cf.node_containing(s), cf.node_containing(own[0])
+        after = cf.reach(dn, avoid=lambda x: x in sn, labels={"n", "t", "f", "loop", "exh"})
+        in_loop = any(x.id in cf.reach([cf.nodes[j] for j, _ in cf.succ[x.id]]) for x in sn)
+        if cf.exit.id in after or in_loop:
+            ok_send = False
+    foreign = [(f, s) for f, s in sent if not any(ff is f for ff, _ in data)]
+    if foreign:
+        ok_send = False
+    if ok_branch and ok_init and ok_send:
+        res.ok("C06.R3", res.site(fi, norm_stmt(c)[:50]), "one sentinel per sending rank: counter starts at len(active_ranks), is decremented only for sentinels, every sender sends its sentinel after its data (per-sender FIFO)")
+    else:
+        res.violation(
+            "C06.R3",
+            fi,
+            c,
+            f"sentinel counting of the wildcard receive is unsound (decrement only on sentinel: {ok_branch}; counter = number of sending ranks: {ok_init}; every sender sends exactly one sentinel after its data and nobody else does: {ok_send}): "
+            "the writer stops early (records lost) or waits forever",
+            key_extra=f"recv-any-source-tag{tag}-counting",
+        )
 
 
 def rule_r4(prog, res) -> None:
@@ -523,6 +618,81 @@ def rule_r6(prog, res) -> None:
         res.violation("C06.R6", hc, hc.node, "histogram counts gathered on the root rank are not broadcast before use", key_extra="hist-no-bcast")
 
 
+def rule_r3b(prog, res) -> None:
+    """when the sentinel is sent by another rank than the data, a barrier among the data senders separates the two"""
+    n = 0
+    for fi in _mpi_funcs(prog):
+        if fi.variant != "mpi":
+            continue
+        calls = _mpi_calls(prog, fi)
+        data = [c for c, op, k in calls if op == "send" and k == WORLD and c.args and not _is_sentinel(prog, fi, c.args[0]) and fi.module.name.endswith("catalog")]
+        if not data:
+            continue
+        own_sentinel = [c for c, op, k in calls if op == "send" and k == WORLD and c.args and _is_sentinel(prog, fi, c.args[0])]
+        if own_sentinel:
+            n += 1
+            res.ok("C06.R3", res.site(fi, "own sentinel"), "this data sender sends its own end-of-data sentinel (ordering by per-sender FIFO, no barrier needed)")
+            continue
+        n += 1
+        res.touch(fi)
+        cfg = cfg_of(fi.node)
+        dn = [nd for nd in cfg.nodes if any(any(x is c for x in ast.walk(nd.expr or ast.Pass())) for c in data)]
+        bars = [nd for nd in cfg.nodes if any(op == "Barrier" and any(x is c for x in ast.walk(nd.expr or ast.Pass())) for c, op, k in calls)]
+        skip = cfg.reach(dn, avoid=lambda x: x in bars, labels={"n", "t", "f", "loop", "exh"})
+        if bars and cfg.exit.id not in skip:
+            res.ok("C06.R3", res.site(fi, "Barrier after data sends"), "every data sender passes a barrier among the senders after its last send and before returning (the sentinel is sent afterwards)")
+        else:
+            res.violation(
+                "C06.R3",
+                fi,
+                data[0],
+                "data senders return without a barrier among them although the end-of-queue sentinel is sent by another rank: even with synchronous sends the sentinel can be received while "
+                "other ranks are still sending patches (records lost, or senders blocked forever)",
+                key_extra="no-barrier-between-data-and-foreign-sentinel",
+            )
+    if n < 1:
+        raise AnalysisError("C06.R3: no data-sending task without own sentinel found on the MPI variant")
+
+
+def rule_r7(prog, res) -> None:
+    """dispatcher progress: tasks are never dropped when the first pass activates no worker"""
+    rt = prog.func("_mpi_root_task")
+    res.touch(rt)
+    fn = rt.node
+    cfg = cfg_of(fn)
+    wl = [n for n in cfg.nodes if n.kind == "test" and isinstance(n.ast, ast.While)]
+    if not wl:
+        raise AnalysisError("C06.R7: result loop not found")
+    # between the first pass and the result loop (or after it) something must react to `no active worker`
+    guards = [n for n in cfg.nodes if n.kind == "test" and isinstance(n.ast, ast.If) and "active" in unparse(n.expr) and any(isinstance(o, (ast.Eq, ast.LtE, ast.Lt)) or isinstance(n.expr, ast.UnaryOp) for x in ast.walk(n.expr) if isinstance(x, ast.Compare) for o in x.ops)]
+    local = [c for c in calls_in(rt) if isinstance(c.func, ast.Name) and c.func.id in ("map", "func")]
+    # … or the caller works off what the dispatcher left in the task iterator
+    for g in _mpi_funcs(prog):
+        gc = cfg_of(g.node)
+        for nd in gc.nodes:
+            for cc in nd.calls():
+                if rt in prog.resolve_call(g, cc).funcs() and cc.args and isinstance(cc.args[0], ast.Name):
+                    itname = cc.args[0].id
+                    later = gc.reach([nd], labels={"n", "t", "f", "loop", "exh"})
+                    for j in later:
+                        for c2 in gc.nodes[j].calls():
+                            if c2 is not cc and any(isinstance(a, ast.Name) and a.id == itname for a in c2.args) and (dotted(c2.func) or "") in ("map", "list", "next") :
+                                local.append(c2)
+                        if gc.nodes[j].kind == "for" and isinstance(gc.nodes[j].expr, ast.Name) and gc.nodes[j].expr.id == itname:
+                            local.append(gc.nodes[j].ast)
+    if guards or local:
+        res.ok("C06.R7", res.site(rt), "the dispatcher handles the case that no worker rank is active")
+    else:
+        res.violation(
+            "C06.R7",
+            rt,
+            fn,
+            "if no worker rank is active after the first pass (max_workers=1: the rank set is {0} and rank 0 only dispatches) the result loop is skipped and the remaining tasks are "
+            "silently dropped: the caller receives an empty result (e.g. a catalog without patches)",
+            key_extra="no-active-worker-drops-tasks",
+        )
+
+
 RULES = [
     ("C06.R1", rule_r1, QUICK),
     ("C06.R2", rule_r2, QUICK),
@@ -530,4 +700,6 @@ RULES = [
     ("C06.R4", rule_r4, QUICK),
     ("C06.R5", rule_r5, QUICK),
     ("C06.R6", rule_r6, QUICK),
+    ("C06.R3b", rule_r3b, QUICK),
+    ("C06.R7", rule_r7, QUICK),
 ]
